@@ -22,6 +22,10 @@ def dispatch (op : String) (args : List String) : Option String :=
   | "decode", [s] => do pure (encBytes (decodeFastExportPath (← decBytes s)))
   | "needsquote", [s] => do pure (encBool (needsQuote (← decBytes s)))
   | "sanitize", [s] => do pure (encBytes (sanitize (← decBytes s)))
+  | "codec", [s] => do
+      let b ← decBytes s
+      pure (" ".intercalate [encBytes (dequote b), encBytes (enquote b), encBytes (encodePathForFi b),
+        encBytes (decodeFastExportPath b), encBool (needsQuote b), encBytes (sanitize b)])
   | "parsepath", [s] => do
       match parsePath (← decBytes s) with
       | none => pure "none"
@@ -31,6 +35,12 @@ def dispatch (op : String) (args : List String) : Option String :=
   | "clipath", [ae, s] => do
       match normalizeCliPath (← decBool ae) (← decBytes s) with
       | .ok b => pure ("ok " ++ encBytes b)
+      | .error e => pure ("err " ++ e.name)
+  | "clipath2", [ae, s] => do   -- both "absolute" errors collapsed (the glob kind words them alike)
+      match normalizeCliPath (← decBool ae) (← decBytes s) with
+      | .ok b => pure ("ok " ++ encBytes b)
+      | .error .absPrefix => pure "err abs"
+      | .error .absAfter => pure "err abs"
       | .error e => pure ("err " ++ e.name)
   | "handle", [inv, paths, globs, renames, hasRx, rxHits, line] => do
       let o := mkPathOpts (← decBool inv) (← decList paths) (← decList globs) (← decPairs renames)
